@@ -10,8 +10,8 @@ EXTENDS TraceTower, Json, IOUtils
 Rec == ndJsonDeserialize(IOEnv.TRACE)
 \* NB: variable names must not coincide with any LET-bound name of the (instantiated) Level-A modules: TLC then treats
 \* constant definitions such as GT as state-dependent and re-evaluates them at every use (measured: 1.5 s per pairing event)
-VARIABLES tpos, tbad, tm          \* position in the trace, mismatches so far, [ok, reg]: verdict of the last step and the register file
-vars == <<tpos, tbad, tm>>
+VARIABLES tpos, tbad, tcov, tm          \* position in the trace, mismatches so far, [ok, reg]: verdict of the last step and the register file
+vars == <<tpos, tbad, tcov, tm>>
 Known(e) == e.op \in {"f.add", "f.sub", "f.mul", "f.neg", "f.inv", "f.pow", "f.is_zero", "f.is_even", "f.eq", "f.sqrt",
                       "f.from_slice", "f.try_from", "f.interpret", "f.from_str", "f.from_hash", "f.roundtrip",
                       "f.to_big_endian", "f.set_bit",
@@ -68,7 +68,7 @@ Chk(e) == CASE e.op \in {"f.add", "f.sub", "f.mul"} -> ChkFBin(e)
 \* a panic or a hang of the code under test is never allowed; an unknown event is a tooling error and is reported too
 KnownAny(e) == Known(e) \/ e.op \in MachineOps
 Why(e) == IF ~KnownAny(e) THEN "unknown-op" ELSE IF e.panic THEN "panic" ELSE "mismatch"
-Init == tpos = 1 /\ tbad = <<>> /\ tm = [ok |-> TRUE, reg |-> <<>>]
+Init == tpos = 1 /\ tbad = <<>> /\ tm = [ok |-> TRUE, reg |-> <<>>] /\ tcov = [c \in CovNames |-> 0]
 Next == /\ tpos <= Len(Rec)
         /\ tpos' = tpos + 1
         /\ tm' = LET e == Rec[tpos]
@@ -77,5 +77,9 @@ Next == /\ tpos <= Len(Rec)
                     ELSE [ok |-> Chk(e), reg |-> tm.reg]                       \* stateless: outputs from logged inputs
         /\ tbad' = IF tm'.ok \/ Len(tbad) >= 200 THEN tbad
                    ELSE Append(tbad, [seq |-> Rec[tpos].seq, op |-> Rec[tpos].op, why |-> Why(Rec[tpos])])
-Done == tpos = Len(Rec) + 1 => PrintT(<<"DONE", ToJson([n |-> Len(Rec), consumed |-> tpos - 1, bad |-> tbad])>>)
+        /\ tcov' = LET e == Rec[tpos]                                             \* input-class counters (coverage only, never a verdict)
+                   IN IF e.op \in {"f.mul", "f.add", "f.sub", "f2.mul"} /\ ~e.panic /\ tm'.ok
+                      THEN LET cs == ClsOf(e) IN [c \in CovNames |-> IF c \in cs THEN tcov[c] + 1 ELSE tcov[c]]
+                      ELSE tcov
+Done == tpos = Len(Rec) + 1 => PrintT(<<"DONE", ToJson([n |-> Len(Rec), consumed |-> tpos - 1, bad |-> tbad, cov |-> tcov])>>)
 =============================================================================
